@@ -75,6 +75,8 @@ pub fn run_case_seeded(case: &Case, hash_seed: u64, timeout: Duration) -> Option
         .stack_size(32 << 20)
         .spawn(move || {
             hashseed::set_thread_seed(hash_seed);
+            let mut case2 = case2;
+            cases::rehash(&mut case2);
             let mut ctx = Ctx::default();
             let r = catch_unwind(AssertUnwindSafe(|| cases::execute(&case2, &mut ctx)));
             if r.is_err() {
